@@ -368,6 +368,11 @@ seed("M.skip-counter-init-1", 'C13', 'C13.R3:skip_bytes:counter-is-bytes-read', 
 seed("M.skip-eof-is-1", 'C13', 'C13.R3:skip_bytes:eof-test', 'the discard loop treats a 1-byte read as end of stream',
      ('memcrs/src/protocol/binary_connection.rs', '            if bytes_read == 0 {', '            if bytes_read == 1 {'))
 
+seed("M.listener-blocking", "C20", 'C20.R1:listener:nonblocking', 'the listening socket is left blocking',
+     ('memcrs/src/memcache_server/memc_tcp.rs', 'socket.set_nonblocking(true)?;', 'socket.set_nonblocking(false)?;'))
+seed("M.listener-no-reuseport", "C20", 'C20.R1:listener:reuse_port', 'SO_REUSEPORT switched off',
+     ('memcrs/src/memcache_server/memc_tcp.rs', 'socket.set_reuse_port(true)?;', 'socket.set_reuse_port(false)?;'))
+
 # ---------------------------------------------------------------- neutral variants
 neutral("N.rename-local", "rename a local in MemoryStore::set",
         (STORE, "            let cas = self.get_cas_id();\n            record.header.cas = cas;", "            let fresh = self.get_cas_id();\n            let cas = fresh;\n            record.header.cas = cas;"))
